@@ -18,14 +18,7 @@ for lg in logs:
             k = (m.group(1), m.group(2))
             c0, n0, _ = pairs.get(k, (0, 0, ""))
             pairs[k] = (c0 + int(m.group(3)), n0 + int(m.group(4)), m.group(5))
-VCS = ("VirusColonySearchOptimization on a permutation task with int(lamda * population_size) == 0: the weighted mean of zero best "
-       "viruses is 0/0, a scalar NaN is handed to _init_agent and PermutationVariable.correct turns it into the one-element "
-       "'permutation' [0]; the repair belongs in the algorithm (n_best >= 1), not in a wrapper")
 HAND = [
-  {"property": "C01", "match": {"clause": "C01.gen", "optimizer": "VirusColonySearchOptimization", "class": "perm_bad"}, "what": VCS + " - reported in a generation"},
-  {"property": "C01", "match": {"clause": "C01.best", "optimizer": "VirusColonySearchOptimization", "class": "perm_bad"}, "what": VCS + " - reported as best_solution"},
-  {"property": "C01", "match": {"clause": "C01.snap", "optimizer": "VirusColonySearchOptimization", "class": "perm_bad"}, "what": VCS + " - in the live population"},
-  {"property": "C05", "match": {"clause": "C05.arg", "optimizer": "VirusColonySearchOptimization", "class": "perm_bad"}, "what": VCS + " - and the objective is called with it"},
   {"property": "C14",
    "match": {"clause": "C14.bounds", "type": "permutation variable mixed with other variables", "exception": "ValueError"},
    "what": "Task.get_bounds() raises ValueError (ragged array) when a PermutationVariable is listed together with any other variable: a permutation is one coordinate holding a list, its bounds are lists, and np.array() cannot stack them with scalar bounds; repairing it means redesigning the permutation encoding (not a small patch)"},
@@ -63,7 +56,7 @@ PROP = [("seed", "C07"), ("cycle counter", "C08"), ("get_partner_index", "C07"),
         ("NaN coordinate", "C05"), ("process mode every pooled", "C11"), ("HyperTuner ranks", "C19"), ("broadcasts `modes`", "C20"),
         ("export_results", "C20"), ("HenryGas", "C10"), ("EarlyStopping(patience=None)", "C06"), ("InvasiveWeedOptimization no longer", "C06"),
         ("AquilaOptimization no longer", "C06"), ("roulette_wheel_indexes", "C06"), ("random_selection", "C06"), ("WildebeestHerd", "C06"),
-        ("QleSineCosine", "C06"), ("trend utilities", "C15")]
+        ("QleSineCosine", "C06"), ("trend utilities", "C15"), ("VirusColonySearch", "C01")]
 for ln in log:
     h, _, msg = ln.partition(" ")
     if not msg.startswith("fix:"):
